@@ -876,11 +876,31 @@ class Executor:
                     return None
         return None
 
+    def _display(self, node, path):
+        # [a, *b, c]: a starred element is spliced in when its items can be enumerated (S4: a display copies)
+        out, tail = [], None
+        for k, e in enumerate(node.elts):
+            if isinstance(e, ast.Starred):
+                v = self.ev(e.value, path)
+                if isinstance(v, PyList) and v.tail is not None and k == len(node.elts) - 1:
+                    out.extend(v.items)          # [..., *rest] where rest has an unknown tail: same as `[...] + list(rest)`
+                    tail = v.tail
+                    continue
+                items = self.iter_concrete(v)
+                if items is None:
+                    raise Unsupported(f"starred element of symbolic length at line {node.lineno}")
+                out.extend(items)
+            else:
+                out.append(self.ev(e, path))
+        return out, tail
+
     def ev_Tuple(self, node, path):
-        return PyList([self.ev(e, path) for e in node.elts], None, True)
+        items, tail = self._display(node, path)
+        return PyList(items, tail, True)
 
     def ev_List(self, node, path):
-        return PyList([self.ev(e, path) for e in node.elts], None, False)
+        items, tail = self._display(node, path)
+        return PyList(items, tail, False)
 
     def ev_Dict(self, node, path):
         d = PyDict()
